@@ -1235,6 +1235,67 @@ def r22(k: Kit) -> None:
                   k.loc(fi, nd), g.describe_path(w) if w else None)
 
 
+def r28(k: Kit) -> None:
+    """Channels never build or invite a packet the transport refuses."""
+    rep = k.rep
+    idx = k.idx
+    rep.rule('C10.R28', 'the bound of C10.R22 and the channel layer agree: '
+             'the maximum packet size a channel advertises '
+             '(self._recv_pktsize) and the size of the data packets it '
+             'builds (_flush_send_buf) are min()-ed with a module constant '
+             'that, plus 1 KiB for header, padding and MAC, does not '
+             'exceed connection._MAX_PACKET_LEN - otherwise an extreme but '
+             'legal max_pktsize makes one side send a packet the other '
+             'side\'s length check answers with a disconnect')
+    cm = idx.module('connection')
+    chm = idx.module('channel')
+
+    def const(mod, name):
+        try:
+            v = idx.fold_name(mod, name)
+        except Exception:
+            return None
+        return v if isinstance(v, int) else None
+    limit = const(cm, '_MAX_PACKET_LEN')
+    fi = k.func('channel.SSHChannel.__init__')
+    caps = set()
+    st = [(nd, v) for nd, v in k.stores_to(fi, 'self._recv_pktsize')]
+    rep.floor('C10.R28', 'advertised packet size stores', len(st), 1)
+    for nd, v in st:
+        ok = v is not None and is_call(v, 'min')
+        names = [dotted(a) for a in v.args] if ok else []
+        cap = [n for n in names if n and n.isupper() or (
+            n and n.startswith('_') and n[1:].replace('_', '').isupper())]
+        caps |= set(cap)
+        rep.check(ok and bool(cap), 'C10.R28',
+                  key(fi, 'advertised packet size capped'),
+                  'self._recv_pktsize = min(max_pktsize, <cap>)',
+                  'the channel advertises whatever max_pktsize the '
+                  'application passed: with 32 MiB a conforming peer sends '
+                  'a 20 MiB packet and this side disconnects with "Invalid '
+                  'packet length"', k.loc(fi, nd))
+    fs = k.func('channel.SSHChannel._flush_send_buf')
+    mins = [(nd, c) for nd, c in k.calls_named(fs, 'min') if any(
+        dotted(a) == 'self._send_pktsize' for a in c.args)]
+    rep.floor('C10.R28', 'data packet size computations', len(mins), 1)
+    for nd, c in mins:
+        cap = [dotted(a) for a in c.args if dotted(a) in caps]
+        rep.check(bool(cap), 'C10.R28', key(fs, 'built packets capped'),
+                  'min(window, peer packet size, <cap>)',
+                  'data packets are as large as the peer\'s advertised '
+                  'maximum: a peer advertising 32 MiB (with the same length '
+                  'bound as ours) is sent one 20 MiB packet and drops the '
+                  'connection', k.loc(fs, nd))
+    for cn in sorted(caps):
+        cv = const(chm, cn)
+        rep.check(isinstance(cv, int) and isinstance(limit, int) and
+                  cv + 1024 <= limit, 'C10.R28',
+                  f'channel.{cn}|fits under connection._MAX_PACKET_LEN',
+                  f'{cn} = {cv}, _MAX_PACKET_LEN = {limit}',
+                  f'{cn} = {cv} does not leave 1 KiB below the transport '
+                  f'bound {limit}', 'asyncssh/channel.py')
+
+
 SOFT_SIGNALS = {'BreakReceived', 'SignalReceived', 'TerminalSizeChanged'}
 
 
@@ -1425,6 +1486,70 @@ def r26(k: Kit) -> None:
                   fi.loc(c))
 
 
+def r27(k: Kit) -> None:
+    """Numbers taken over from a reply are bounded before use as sizes."""
+    rep = k.rep
+    rep.rule('C10.R27', 'SFTP client, numeric fields of extended replies '
+             'that steer later requests: the server limits taken over by '
+             'request_limits are min()-ed with the client\'s own maxima '
+             '(they become 32-bit READ / WRITE lengths), and the remaining '
+             'length computed from a ranges reply is tested before it is '
+             'sent as the next request - 2^33 or an offset of 2^63 must '
+             'not end in OverflowError inside the application\'s read() / '
+             'copy')
+    fi = k.func('sftp.SFTPClientHandler.request_limits')
+    n = 0
+    for fld in ('self.limits.max_read_len', 'self.limits.max_write_len'):
+        for nd, v in k.stores_to(fi, fld):
+            n += 1
+            okm = False
+            if v is not None:
+                lv, _fr = expr_sources(k.cfg(fi), k.rd(fi), nd.id, v)
+                okm = any(is_call(c, 'min') for c in [v] + list(lv))
+            rep.check(okm, 'C10.R27',
+                      key(fi, f'{fld[12:]} bounded'),
+                      f'{fld} = min(<server value>, <own maximum>)',
+                      f'`{fld} = {norm(v) if v is not None else "?"}`: a '
+                      'server announcing max-read-len 2^33 makes the next '
+                      'read() of a large file raise OverflowError (UInt32)',
+                      k.loc(fi, nd))
+    rep.floor('C10.R27', 'limits taken over', n, 2)
+    fr = k.func('sftp.SFTPClientFile.request_ranges')
+    g = k.cfg(fr)
+    st = [nd for nd, v in k.stores_to(fr, 'next_length')
+          if v is not None and not (isinstance(v, ast.Name))]
+    calls = [nd for nd, c in k.calls_named(fr, 'request_ranges',
+                                           'self._handler')]
+    rep.floor('C10.R27', 'range requests', len(calls), 1)
+    tests = [a.id for a in g.nodes if a.kind == 'atom' and a.ast is not None
+             and isinstance(a.ast, ast.Compare) and
+             ('next_length' in names_read(a.ast) or
+              'next_offset' in names_read(a.ast))]
+    for nd in st:
+        if isinstance(g.nodes[nd.id].ast, ast.Assign) and isinstance(
+                g.nodes[nd.id].ast.value, ast.Name):
+            continue
+        bad = None
+        for c in calls:
+            for b, lab in g.succ[nd.id]:
+                if lab == 'exc' or b in tests:
+                    continue
+                w = g.path(b, c.id, blocked_nodes=tests, follow_exc=False)
+                bad = bad or w
+        # the initial assignment from the parameter is the caller's value
+        v = [v for n2, v in k.stores_to(fr, 'next_length') if n2 is nd][0]
+        if 'length' in names_read(v) and len(names_read(v)) == 1:
+            continue
+        rep.check(bad is None, 'C10.R27',
+                  key(fr, 'remaining length tested'),
+                  'next_length / next_offset compared before the next '
+                  'request',
+                  'a ranges reply [(2^63, 1)], at_end=False makes the '
+                  'remaining length negative and the next request raise '
+                  'OverflowError', k.loc(fr, nd),
+                  g.describe_path(bad) if bad else None)
+
+
 def run(idx, rep, tier):
     k = Kit(idx, rep)
     rep.assumptions += NOT_DECIDED
@@ -1451,6 +1576,33 @@ def run(idx, rep, tier):
     r24(k)
     r25(k)
     r26(k)
+    r27(k)
+    r28(k)
+    rep.rule('C10.R29', 'SSHChannel._cleanup may run twice (the connection '
+             'cleanup and a call_soon from an open that completes '
+             'afterwards): every use of self._conn in it is behind a test '
+             'of self._conn and it asserts nothing about self._conn / '
+             'self._recv_chan outside that test - an AssertionError in a '
+             'bare loop callback escapes to the event loop')
+    _fc = k.func('channel.SSHChannel._cleanup')
+    _gc = k.cfg(_fc)
+    _live = atom_truthy_of('self._conn')
+    _uses = [n for n, c in k.call_nodes(_fc, lambda c: isinstance(
+        c.func, ast.Attribute) and dotted(c.func.value) == 'self._conn')]
+    _uses += [n for n in _gc.nodes if isinstance(n.ast, ast.Assert) and any(
+        d in names_read(n.ast.test) for d in ('self._conn',
+                                              'self._recv_chan'))]
+    rep.floor('C10.R29', 'connection uses in _cleanup', len(_uses), 2)
+    for _n in _uses:
+        _w = _gc.guarded_by(_n.id, _live)
+        rep.check(_w is None, 'C10.R29',
+                  key(_fc, f'{norm(_n.ast)[:40]} only while attached'),
+                  'guarded by self._conn',
+                  'a CHANNEL_OPEN whose session is produced asynchronously, '
+                  'then the connection drops: _cleanup(exc) runs, the open '
+                  'completes and schedules _cleanup again - the second run '
+                  'raises out of a loop callback',
+                  k.loc(_fc, _n), _gc.describe_path(_w) if _w else None)
     from .c12 import copy_loop_progress
     rep.rule('C10.R14', 'copy-data: the server\'s copy loop reaches its '
              'test again only after a read that returned data (= clause of '
@@ -1525,3 +1677,6 @@ def run(idx, rep, tier):
                   'is: READ with length 0xffffffff on a 256 MiB file '
                   'returns one 256 MiB reply and stalls the event loop for '
                   'seconds', k.loc(_fi, _n))
+    from .shared import share
+    from .c08 import r1 as _c08r1
+    share(k, 'C10.R30', 'data beyond the advertised window is a protocol error (= C08.R1): the test is against the remaining window alone, so a peer that ignores flow control cannot make a stalled application buffer without bound', _c08r1, keep=lambda key: 'window check' in key)
